@@ -1679,6 +1679,7 @@ class TransportLayer(TransportLayerLogic):
         if self.started:
             if not self.events.stop_requested.is_set():
                 if self.main_thread is not None and self.main_thread.is_alive():
+                    self.events.reset_tx_complete.clear()   # a flag left set by an earlier request must not end the wait below at once
                     self.events.reset_tx.set()
                     self.events.reset_tx_complete.wait(1.0)
                     if not self.events.reset_tx_complete.is_set():
@@ -1691,6 +1692,7 @@ class TransportLayer(TransportLayerLogic):
         if self.started:
             if not self.events.stop_requested.is_set():
                 if self.main_thread is not None and self.main_thread.is_alive():
+                    self.events.reset_rx_complete.clear()   # a flag left set by an earlier request must not end the wait below at once
                     self.events.reset_rx.set()
                     self.rx_relay_queue.put(None)   # Wakeup from blocking read
                     self.events.reset_rx_complete.wait(1.0)
